@@ -201,6 +201,13 @@ def judge(res, run, desc, entry):
                       f'{run.stderr.strip().splitlines()[-1][:200]}',
                       witness)
         return
+    if run.rc is not None and run.rc < 0 and not run.sent_signal:
+        # nobody sent a signal: ddSMT (not the command) was killed by the
+        # kernel, e.g. by a resource limit it put on itself
+        res.violation(f'killed-by-signal:{-run.rc}:{entry}',
+                      f'ddSMT was terminated by signal {-run.rc} in the '
+                      f'middle of the run, without any diagnostic', witness)
+        return
     completed = ('unable to minimize input file' in run.stderr
                  or 'No further simplification found' in run.stderr
                  or run.out_bytes is not None)
@@ -224,6 +231,29 @@ def judge(res, run, desc, entry):
     for e in run.cmdlog[:400]:
         pass
     return completed
+
+
+def long_case(res, base, strat):
+    """A run with thousands of tests in which nothing can be removed: the
+    process that runs the command accumulates far more CPU time than the
+    limit of a single test (--timeout 1).  Whatever limits ddSMT installs
+    are for the command, the run itself has to go on to its end."""
+    n = 14
+    lines = [f'(declare-const b{i} Bool)' for i in range(n)] + [
+        f'(assert (or b{i} (not b{(i + 1) % n})))' for i in range(n)] + [
+        '(check-sat)']
+    text = '\n'.join(lines) + '\n'
+    ntok = len(workload.tokens_of(text))
+    # only the input itself behaves like the golden run
+    rules = realrun.simple_spec(f'ntok>={ntok} count:b0>=3 & count:or>={n} &')
+    opts = ['--strategy', strat, '-j', '1', '--timeout', '1']
+    wd = os.path.join(base, f'long-{strat}')
+    run = realrun.run_ddsmt(wd, text, rules, opts=opts, timeout=400)
+    res.count('long_runs')
+    res.count('long_run_tests', len(run.cmdlog))
+    judge(res, run, {'input': text, 'rules': rules, 'kind': 'long',
+                     'strategy': strat, 'jobs': 1}, 'bin')
+    shutil.rmtree(wd, ignore_errors=True)
 
 
 def usage_cases(r, base):
@@ -438,6 +468,8 @@ def shard(args):
             for name, kw in usage_cases(r, base):
                 for entry in ('bin', 'module'):
                     run_usage(res, base, name, kw, entry)
+        if args['shard'] in (2, 3):
+            long_case(res, base, ['ddmin', 'hybrid'][args['shard'] - 2])
         for i in range(args['n']):
             kind = ['wellformed', 'fuzzed', 'illformed', 'unbalanced',
                     'fuzzed', 'illformed', 'deep'][i % 7]
